@@ -1,4 +1,4 @@
-"""C07 (velocity / Jacobian part): spatial velocities equal J*qvel, sparse and dense Jacobians agree, the subtree-COM Jacobian is the mass-weighted mean, differentiatePos inverts integratePos on scalar joints."""
+"""C07 (velocity / Jacobian part): mj_comPos builds subtree COM and motion axes from anchors and axes, spatial velocities equal J*qvel, sparse and dense Jacobians agree, the subtree-COM Jacobian is the mass-weighted mean, differentiatePos inverts integratePos on scalar joints."""
 import z3
 from vf import ir, build, llsym, world as W
 from vf.runner import Checker
@@ -10,8 +10,9 @@ LEVEL = 'other'
 EXPLANATION = ('llsym (real-algebraic) runs the real mj_comVel, mj_objectVelocity, mj_jac, mj_jacSparse (with the real mj_bodyChain), mj_jacSubtreeCom, mj_integratePos and mj_differentiatePos on the symbolic trees of C06 '
                '(chain, fork, two dofs on one body, mixed tree): motion axes cdof, joint velocities, body / site positions, subtree centres of mass and masses are free symbols. z3 decides as polynomial identities: the 6D velocity '
                'mj_objectVelocity reports for a body or a site equals [Jr; Jp] qvel with the Jacobians of mj_jac at the same point; mj_jacSparse equals mj_jac on the body\'s dof chain and the chain holds exactly the ancestor dofs; '
-               'mj_jacSubtreeCom equals the mass-weighted mean of the bodies\' COM Jacobians; and for slide / hinge joints mj_differentiatePos(qpos1 -> integratePos(qpos1, v, dt)) returns v.')
-BOUNDS = {'quick': {'trees': 'chain3, fork3, twodof, mixed5 (see C06)', 'points': 'every body frame (XBODY), body COM (BODY) and one site per tree'}, 'thorough': {'trees': 'plus chain4, fork4, free3-style multi-dof body'}}
+               'mj_jacSubtreeCom equals the mass-weighted mean of the bodies\' COM Jacobians; and for slide / hinge joints mj_differentiatePos(qpos1 -> integratePos(qpos1, v, dt)) returns v. mj_comPos (symbolic frames, anchors, axes, masses): subtree_com is the mass-weighted mean over the subtree, '
+               'cinert carries mass and first moment about the tree COM, and the motion axis of a hinge is [axis; axis x (COM - anchor of that joint)] (two hinges with different anchors on one body included), of a slide [0; axis].')
+BOUNDS = {'quick': {'trees': 'chain3, fork3, twodof, mixed5 (see C06)', 'points': 'every body frame (XBODY), body COM (BODY) and one site per tree', 'mj_comPos': 'twodof (hinge+slide and hinge+hinge on one body), chain3'}, 'thorough': {'trees': 'plus chain4, fork4, free3-style multi-dof body', 'mj_comPos': 'plus fork3, mixed5, chain4'}}
 OUTSIDE = ('forward kinematics (mj_kinematics: trigonometric quaternion chains), Jacobians as derivatives of positions (needs that kinematics), mj_jacDot, ball and free joints in integratePos / differentiatePos (quaternion exponential), '
            'frames are proper rotations, constraint-row Jacobians.')
 ASSUMPTIONS = ['real-number semantics', 'cvel is the one mj_comVel computes from the same cdof and qvel (it is computed by the real function inside the unit)', 'dt != 0', 'subtree mass non-zero', 'sleep disabled']
@@ -124,6 +125,61 @@ def unit_subtreecom(tier, topo):
     return ck
 
 
+def unit_compos(tier, topo, hinge_only=False):
+    """mj_comPos: subtree centre of mass is the mass-weighted mean over the subtree; cinert carries the body's mass and first moment about the tree's COM; the motion axis
+    of a hinge is [axis; axis x (COM - anchor of THAT joint)] (the velocity of the point COM per unit joint velocity), of a slide [0; axis]"""
+    import fractions
+    ck = Checker('compos_%s%s' % (topo, '_h' if hinge_only else ''), tier, timeout_s=120, semantics='real')
+    K = build.enum_values('mjJNT_')
+    S, w, M, D = C06.world(topo, ('xipos', 'ximat', 'xmat', 'subtree_com', 'cdof', 'cinert'))
+    nv, nb = S['nv'], S['nb']
+    D.arr('xanchor', 'f64', 3 * nv, name='xanchor'); D.arr('xaxis', 'f64', 3 * nv, name='xaxis')
+    mo, mass = M.arr('body_mass', 'f64', nb, name='mass'); smo, sm = M.arr('body_subtreemass', 'f64', nb, name='smass'); io, inr = M.arr('body_inertia', 'f64', 3 * nb, name='inertia')
+    types = [K['mjJNT_HINGE'] if (hinge_only or j % 2 == 0) else K['mjJNT_SLIDE'] for j in range(nv)]
+    M.arr('jnt_type', 'i32', nv, types)
+    jadr = []; a = 0
+    for b in range(nb): jadr.append(a if S['dnum'][b] else -1); a += S['dnum'][b]
+    M.arr('body_jntadr', 'i32', nb, jadr); M.arr('body_jntnum', 'i32', nb, list(S['dnum'])); M.arr('jnt_dofadr', 'i32', nv, list(range(nv))); M.arr('jnt_bodyid', 'i32', nv, list(S['dof_body']))
+    MINV = z3.RealVal(str(fractions.Fraction(1e-15)))
+    ex = C06.executor(nv, nb); st = w.to_state(ex)
+    pre = [sm[b] >= MINV for b in range(nb)]
+    st.pc += pre
+    xip = D.arrays['xipos'][3]; xan = D.arrays['xanchor'][3]; xax = D.arrays['xaxis'][3]
+    res = ex.run('@mj_comPos', [w.P(M.o), w.P(D.o)], st); ck.note_results(ex, res)
+    roots = C06.root_ids(S)
+    dec = lambda mdl: {'topology': topo, 'joint types': ['hinge' if t == K['mjJNT_HINGE'] else 'slide' for t in types], 'mass': [str(W.evalnum(mdl, x)) for x in mass], 'subtree mass': [str(W.evalnum(mdl, x)) for x in sm],
+                       'xanchor': [str(W.evalnum(mdl, x)) for x in xan], 'xaxis': [str(W.evalnum(mdl, x)) for x in xax], 'xipos': [str(W.evalnum(mdl, x)) for x in xip]}
+    cross = lambda a_, b_: [a_[1] * b_[2] - a_[2] * b_[1], a_[2] * b_[0] - a_[0] * b_[2], a_[0] * b_[1] - a_[1] * b_[0]]
+    nret = 0
+    for r in res:
+        if r.kind != 'return': continue
+        nret += 1
+        sc = C06.arr(ex, r.state, w, D, 'subtree_com', 3 * nb); cd = C06.arr(ex, r.state, w, D, 'cdof', 6 * nv); ci = C06.arr(ex, r.state, w, D, 'cinert', 10 * nb)
+        outs = [('subtree_com%d' % k, D.arrays['subtree_com'][0], 8 * k, 'f64', sc[k]) for k in range(3 * nb)] + [('cdof%d' % k, D.arrays['cdof'][0], 8 * k, 'f64', cd[k]) for k in range(6 * nv)] + \
+               [('cinert%d' % (10 * b + k), D.arrays['cinert'][0], 8 * (10 * b + k), 'f64', ci[10 * b + k]) for b in range(nb) for k in range(6, 10)]
+        rp = W.make_replay(so(), 'mj_comPos', w, [('ptr', (M.o, 0)), ('ptr', (D.o, 0))], outputs=outs, semantics='real')
+        for b in range(nb):
+            sub = [c for c in range(nb) if c == b or (b == 0) or is_desc(S, c, b)]
+            ck.prove('subtree_com[%d] * subtree mass = sum over the subtree of mass * xipos' % b, r.state.pc, z3.And(*[sc[3 * b + k] * sm[b] == sum(mass[c] * xip[3 * c + k] for c in sub) for k in range(3)]),
+                     site='mj_comPos:subtree_com', decode=dec, replay=rp)
+        for b in range(1, nb):
+            off = [xip[3 * b + k] - sc[3 * roots[b] + k] for k in range(3)]
+            ck.prove('cinert[%d]: mass and first moment mass * (xipos - COM of the tree)' % b, r.state.pc, z3.And(ci[10 * b + 9] == mass[b], *[ci[10 * b + 6 + k] == mass[b] * off[k] for k in range(3)]),
+                     site='mj_comPos:cinert', decode=dec, replay=rp)
+        for j in range(nv):
+            b = S['dof_body'][j]; ax = [xax[3 * j + k] for k in range(3)]
+            if types[j] == K['mjJNT_HINGE']:
+                lin = cross(ax, [sc[3 * roots[b] + k] - xan[3 * j + k] for k in range(3)]); want = ax + lin
+                what = 'hinge %d: cdof = [axis; axis x (COM of the tree - anchor of this joint)]' % j
+            else:
+                want = [z3.RealVal(0)] * 3 + ax; what = 'slide %d: cdof = [0; axis]' % j
+            ck.prove(what, r.state.pc, z3.And(*[cd[6 * j + k] == want[k] for k in range(6)]), site='mj_comPos:cdof', decode=dec, replay=rp)
+    if nret != 1: ck.error('mj_comPos: expected one returning path, got %d' % nret)
+    ck.reach('subtree masses above mjMINVAL', pre)
+    ck.memory_obligations(res, decode=dec)
+    return ck
+
+
 def is_desc(S, c, b):
     while c > 0:
         c = S['par'][c]
@@ -160,5 +216,8 @@ def units(tier):
     u = []
     for t in topos:
         u.append(('velocity_%s' % t, 'unit_velocity', {'topo': t})); u.append(('subtreecom_%s' % t, 'unit_subtreecom', {'topo': t}))
+    for t in (['twodof', 'chain3'] if tier == 'quick' else ['twodof', 'chain3', 'fork3', 'mixed5', 'chain4']):
+        u.append(('compos_%s' % t, 'unit_compos', {'topo': t}))
+    u.append(('compos_twodof_h', 'unit_compos', {'topo': 'twodof', 'hinge_only': True}))
     u += [('posmaps_nv2', 'unit_posmaps', {'nv': 2})] + ([('posmaps_nv3', 'unit_posmaps', {'nv': 3})] if tier != 'quick' else [])
     return u
